@@ -21,17 +21,20 @@ import (
 
 type boundedRun struct {
 	mode, tags string
+	frame      bool // a family of the frame-level harness (package lz4) instead of the block-level one
 }
 
 var boundedPlans = map[string][]boundedRun{
-	"C01": {{"c01", ""}},
-	"C04": {{"c04", ""}, {"c04", "noasm"}},
-	"C12": {{"c04", ""}, {"c04", "noasm"}},
+	"C01": {{"c01", "", false}},
+	"C04": {{"c04", "", false}, {"c04", "noasm", false}},
+	"C12": {{"c04", "", false}, {"c04", "noasm", false}},
+	"C14": {{"c14", "", false}, {"c14frames", "", true}},
 }
 
 var boundedRules = map[string]string{
 	"C01": "BOUNDED. Sources: every string over {a,b} of length 0..13 (0..16 thorough), every string over {0,1,2} of length 1..8 (1..10 thorough), periodic sources (16 periods x 26 lengths x 5 break positions), repeats at distances 65534..65537 and 131071/131072, and pseudo-random structured sources (seeded). Each is compressed by the fast compressor (fresh object, one object reused across all cases, pooled package function; destination exactly CompressBlockBound and 3 larger) and by the HC compressor at depths 0,1,2,7,512,4096,131072 (fresh, reused, pooled); the result must be positive with nil error, strictly valid and decode to the source by the independent decoder and by the package decoder. A case is non-trivial when the source is longer than 12 bytes (shorter sources are emitted as literals only); distinct by content hash.",
 	"C04": "BOUNDED. Blocks: one match with literal lengths {0,1,14,15,16,270} x match lengths {4,5,18,19,20,274} x offsets {0,1,2,3,4,7,8,15,16,17,18,di,di+1,di+len(dict),di+len(dict)+1,65535} x final literals {0,1,5,12,17} x dictionaries of length {0,1,27,70000}; every truncation and six values at each structural byte of the small ones; two-match blocks whose second match reaches into the first / the dictionary; blocks from a random sequence grammar and bit flips in real compressor output (seeded). Destination exactly large enough, one byte short and five bytes larger. Outcome (error or not), length and bytes must equal the independent decoder's, whatever the destination held before, with nothing written beyond len(dst). Run in the default build (assembly decoder) and with -tags noasm (portable decoder). Non-trivial: blocks longer than 3 bytes; distinct by content hash.",
+	"C14": "BOUNDED. Block level: every string over {a,b} of length 0..12 (0..15 thorough), periodic sources (10 periods x 10 lengths up to 70000) and pseudo-random structured sources are compressed by a fresh compressor object, by five long-lived fast compressor objects and four HC objects whose histories began with other inputs (empty, 72000 repeating bytes, 70000 zeros, 100000 random bytes, one byte) and then served every earlier case, and by the pooled package functions (pool poisoned the same way); HC at depths 0,1,7,512,131072; all outputs must be byte-identical to the fresh object's. Frame level: random contents (0..300001 bytes) and option sets (incl. legacy) written with concurrency 1, 2 and 4 as one Write, a random split, 4099-byte writes and ReadFrom; every frame must be byte-identical to the sequential single-Write frame. Non-trivial: sources longer than 4 bytes / contents longer than one block; distinct by content hash. Goroutine schedules are whatever the runs happened to take (not enumerated).",
 	"C12": "BOUNDED. The C04 family is run in the default build (assembly decoder) and with -tags noasm (portable decoder); both must give the outcome, length and bytes of the same independent decoder on every case, hence the same as each other. Non-trivial: blocks longer than 3 bytes; distinct by content hash.",
 }
 
@@ -53,18 +56,22 @@ func cmdBounded(args []string) int {
 	seed := envInt("VERIF_SEED", 0)
 	scratch := scratchDir()
 	defer os.RemoveAll(scratch)
-	pkgDir := filepath.Join(repoDir, "internal/lz4block")
-	testSrc := filepath.Join(vd, "engine", "harness", "lz4block_replay_test.go.txt")
-	data, err := os.ReadFile(testSrc)
-	if err != nil {
-		fmt.Println("ENGINE-ERROR:", err)
-		return 2
+	overlayFor := func(frame bool) (pkgDir, ovFile, test string, err error) {
+		pkgDir, src, name, test := filepath.Join(repoDir, "internal/lz4block"), "lz4block_replay_test.go.txt", "zz_lz4verif_replay_test.go", "TestLz4verifBounded"
+		if frame {
+			pkgDir, src, name, test = repoDir, "lz4_replay_test.go.txt", "zz_lz4verif_frame_replay_test.go", "TestLz4verifReplay"
+		}
+		data, err := os.ReadFile(filepath.Join(vd, "engine", "harness", src))
+		if err != nil {
+			return "", "", "", err
+		}
+		dst := filepath.Join(scratch, name)
+		os.WriteFile(dst, data, 0o644)
+		ov, _ := json.Marshal(map[string]map[string]string{"Replace": {filepath.Join(pkgDir, name): dst}})
+		ovFile = filepath.Join(scratch, "ov_"+name+".json")
+		os.WriteFile(ovFile, ov, 0o644)
+		return pkgDir, ovFile, test, nil
 	}
-	dst := filepath.Join(scratch, "zz_lz4verif_replay_test.go")
-	os.WriteFile(dst, data, 0o644)
-	ov, _ := json.Marshal(map[string]map[string]string{"Replace": {filepath.Join(pkgDir, "zz_lz4verif_replay_test.go"): dst}})
-	ovFile := filepath.Join(scratch, "ov.json")
-	os.WriteFile(ovFile, ov, 0o644)
 
 	evals, nontrivial := 0, 0
 	var samples []interface{}
@@ -72,7 +79,12 @@ func cmdBounded(args []string) int {
 	var runs []string
 	reB := regexp.MustCompile(`LZ4VERIF-BOUNDED mode=\S+ evaluations=(\d+) distinct_nontrivial=(\d+)`)
 	for _, pr := range plan {
-		a := []string{"test", "-v", "-overlay", ovFile, "-vet=off", "-count=1", "-timeout", "1500s", "-run", "TestLz4verifBounded"}
+		pkgDir, ovFile, test, err := overlayFor(pr.frame)
+		if err != nil {
+			fmt.Println("ENGINE-ERROR:", err)
+			return 2
+		}
+		a := []string{"test", "-v", "-overlay", ovFile, "-vet=off", "-count=1", "-timeout", "1500s", "-run", test}
 		if pr.tags != "" {
 			a = append(a, "-tags", pr.tags)
 		}
@@ -80,7 +92,7 @@ func cmdBounded(args []string) int {
 		cmd := exec.Command("go", a...)
 		cmd.Dir = pkgDir
 		cmd.Env = append(os.Environ(), "GOFLAGS=-mod=mod", "GOPROXY=off", "GOSUMDB=off", "GOTOOLCHAIN=local",
-			"LZ4VERIF_BOUNDED="+pr.mode, "LZ4VERIF_TIER="+*tier, "LZ4VERIF_SEED="+strconv.Itoa(seed), "GOCACHE="+goCache())
+			"LZ4VERIF_BOUNDED="+pr.mode, "LZ4VERIF_HARNESS="+pr.mode, "LZ4VERIF_TIER="+*tier, "LZ4VERIF_SEED="+strconv.Itoa(seed), "GOCACHE="+goCache())
 		t1 := time.Now()
 		outB, _ := cmd.CombinedOutput()
 		out := string(outB)
